@@ -3,10 +3,13 @@ package main
 import (
 	"flag"
 	"fmt"
+	"go/types"
 	"os"
 	"sort"
 	"strings"
 	"sync"
+
+	"golang.org/x/tools/go/ssa"
 )
 
 func main() {
@@ -21,6 +24,15 @@ func main() {
 		cmdCheck(os.Args[2:])
 	case "list":
 		cmdList(os.Args[2:])
+	case "closure":
+		d, err := LoadDriver("/repo", "/verif/spec")
+		if err != nil {
+			fmt.Println(err)
+			os.Exit(2)
+		}
+		for _, k := range closureOf(d, os.Args[2:]) {
+			fmt.Println(k)
+		}
 	default:
 		fmt.Println("unknown command")
 		os.Exit(2)
@@ -79,6 +91,12 @@ func solveAll(d *Driver, fvcs []*FuncVC, dir string, timeoutMs int, keepText boo
 				tmo := timeoutMs
 				if o.Expect == "sat" && tmo > 3000 {
 					tmo = 3000 // vacuity covers: a short budget is enough, "unknown" is not a failure
+				}
+				switch o.Kind {
+				case "nil-deref", "nil-arg", "nil-elem", "index", "slice-bounds", "type-assert", "div-zero", "nil-map-write", "make-len", "alloc-bounded", "panic", "lock":
+					if tmo > 8000 {
+						tmo = 8000 // safety obligations are local facts: they discharge at once or not at all
+					}
 				}
 				r := runQuery(dir, o.Name, txt, tmo)
 				res := &oblResult{O: o, R: r, VC: f.VC}
@@ -164,3 +182,76 @@ func cmdVC(args []string) {
 	}
 }
 
+
+// closureOf computes the package-local call-graph closure of the given roots (static calls, closures,
+// and interface invokes resolved to every package method of that name implementing the interface).
+func closureOf(d *Driver, roots []string) []string {
+	seen := map[string]bool{}
+	var visit func(fn *ssa.Function)
+	visit = func(fn *ssa.Function) {
+		if fn == nil || fn.Pkg != d.pkg || len(fn.Blocks) == 0 {
+			return
+		}
+		key := fn.RelString(d.pkg.Pkg)
+		if seen[key] {
+			return
+		}
+		seen[key] = true
+		for _, b := range fn.Blocks {
+			for _, ins := range b.Instrs {
+				switch x := ins.(type) {
+				case *ssa.MakeClosure:
+					visit(x.Fn.(*ssa.Function))
+				}
+				ci, ok := ins.(ssa.CallInstruction)
+				if !ok {
+					continue
+				}
+				cc := ci.Common()
+				if cc.IsInvoke() {
+					iface, ok := cc.Value.Type().Underlying().(*types.Interface)
+					if !ok {
+						continue
+					}
+					for _, mem := range d.pkg.Members {
+						tn, ok := mem.(*ssa.Type)
+						if !ok {
+							continue
+						}
+						for _, t := range []types.Type{tn.Type(), types.NewPointer(tn.Type())} {
+							if types.Implements(t, iface) {
+								if sel := d.prog.MethodSets.MethodSet(t).Lookup(cc.Method.Pkg(), cc.Method.Name()); sel != nil {
+									visit(d.prog.MethodValue(sel))
+								}
+							}
+						}
+					}
+					continue
+				}
+				switch f := cc.Value.(type) {
+				case *ssa.Function:
+					visit(f)
+				case *ssa.MakeClosure:
+					visit(f.Fn.(*ssa.Function))
+				}
+				for _, a := range cc.Args {
+					if f, ok := a.(*ssa.Function); ok {
+						visit(f)
+					}
+					if mc, ok := a.(*ssa.MakeClosure); ok {
+						visit(mc.Fn.(*ssa.Function))
+					}
+				}
+			}
+		}
+	}
+	for _, r := range roots {
+		visit(d.fns[r])
+	}
+	out := []string{}
+	for k := range seen {
+		out = append(out, k)
+	}
+	sort.Strings(out)
+	return out
+}
